@@ -117,7 +117,38 @@ def run(ctx):
     r.check("R19.2", names == {("(%s['namespace'], %s['name'])" % (tok, tok), "%s['name']" % tok)}, "same-name-on-start-and-end", f.where,
             "start and end element events use different name expressions: %s" % sorted(names))
     attrs = [c for c in ast.walk(tok_loop) if isinstance(c, ast.Call) and norm(c.func) == "AttributesNSImpl"]
-    r.idiom("R19.2", len(attrs) == 1 and [norm(a) for a in attrs[0].args] == ["%s['data']" % tok, "unadjustForeignAttributes"],
+    # evaluated: the start-tag arm is run on a token that carries every adjusted foreign attribute plus an ordinary one; the
+    # attribute set handed over must be the token's, and the qualified name given for each foreign attribute must be the one it had
+    # in the markup (the inverse of adjustForeignAttributes: `xlink:href`, `xml:lang`, and plain `xmlns` for the prefix-less one)
+    adj_ = ce.const("constants.py", "adjustForeignAttributes")
+    data_ = {(None, "class"): "c"}
+    for q_, (pfx_, local_, ns_) in adj_.items():
+        data_[(ns_, local_)] = q_
+    handed = []
+
+    def attrs_hook(node, env):
+        if isinstance(node, ast.Call) and norm(node.func) == "AttributesNSImpl" and len(node.args) == 2:
+            handed.append((ce.eval(node.args[0], f.module, env), ce.eval(node.args[1], f.module, env)))
+            return Opaque("attrs")
+        return NotImplemented
+    evaluated = False
+    try:
+        MiniInterp(ce, f.module, expr_hook=attrs_hook).run(tok_loop.body, {tok: {"type": "StartTag", "name": "svg", "namespace": "http://www.w3.org/2000/svg", "data": dict(data_)},
+                                                                              handler: Opaque("handler")})
+        evaluated = len(handed) == 1 and isinstance(handed[0][0], dict) and isinstance(handed[0][1], dict)
+    except Exception:      # noqa: BLE001
+        evaluated = False
+    if evaluated:
+        got_attrs, qn = handed[0]
+        r.check("R19.2", got_attrs == data_, "attributes-all-handed-over", f.where,
+                "to_sax hands startElementNS %d of the token's %d attributes: a tree rebuilt from the events lacks %s"
+                % (len(got_attrs), len(data_), sorted(set(data_) - set(got_attrs))[:3]))
+        wrong_q = {k: qn.get(k) for k, v in data_.items() if k[0] is not None and qn.get(k) != v}
+        r.check("R19.2", not wrong_q, "foreign-attribute-qnames", f.where,
+                "the qualified names given for foreign attributes differ from the ones in the markup: %s (expected %s) -- consumers that "
+                "read qualified names (XMLGenerator, SAX2DOM) see a different attribute"
+                % (sorted(wrong_q.items(), key=str)[:2], [data_[k] for k, _ in sorted(wrong_q.items(), key=str)[:2]]))
+    r.idiom("R19.2", evaluated or (len(attrs) == 1 and [norm(a) for a in attrs[0].args] == ["%s['data']" % tok, "unadjustForeignAttributes"]),
             "attributes", f.where, "attributes are not passed as AttributesNSImpl(token['data'], unadjustForeignAttributes)",
             wrong=[(len(attrs) == 1 and bool(attrs[0].args) and any(isinstance(x, (ast.DictComp, ast.GeneratorExp, ast.ListComp)) and
                                                                    any(g.ifs for g in x.generators) for x in ast.walk(attrs[0].args[0])),
